@@ -132,8 +132,13 @@ pub fn copy_tree(src: &Path, dst: &Path) {
         let p = e.path();
         let d = dst.join(e.file_name());
         if let Ok(target) = fs::read_link(&p) {
-            // a symbolic link is copied as a link (one of the obstacles points at /dev/full)
-            let _ = std::os::unix::fs::symlink(target, &d);
+            if target == Path::new("/dev/full") {
+                // the obstacle that cannot be written is copied as a link
+                let _ = std::os::unix::fs::symlink(target, &d);
+            } else {
+                // any other link is copied as what it points to: the image must not share a file with the original
+                fs::copy(&p, &d).unwrap();
+            }
         } else if p.is_dir() {
             copy_tree(&p, &d);
         } else {
